@@ -60,6 +60,21 @@ CLAIMED = {
     'C20': ('4 C20', 'The four 256-entry tables are compared with independently transcribed tables by one solver query per '
             'table over a symbolic index; draw of a symbolic code point is compared with the reference translation for '
             'every G0/G1 designation and shift state; SO/SI/designation through the API and the recogniser.'),
+    'C02': ('4 C02', 'Relational and model-free: the same symbolic characters/bytes are fed in one call and cut at every '
+            'position into two (thorough three) calls to two instances of the real recogniser / byte parser inside one '
+            'engine run; z3 decides equality of listener events, recogniser position and flag, characters handed on and '
+            'decoder carry-over on every joint path; induction over the number of cuts gives all partitions.'),
+    'C03': ('4 C03', 'The shipping recogniser closure is executed from its MIR as a coroutine in lock-step with a reference '
+            'recogniser written from the grammar, on unconstrained symbolic code points (classes emerge from the forks), '
+            'one sequence from ground state with ground-state pruning plus a concrete probe, and shaped deep families; '
+            'event lists (operation, parameters, private flag, text) are compared by z3 per joint path.'),
+    'C11': ('4 C11', 'ByteParser::feed executed from MIR on fully symbolic bytes for every composition into chunks and mode-'
+            'switch plans; the characters it hands to the recogniser are compared by z3 with an independent byte-at-a-'
+            'time UTF-8 automaton over the concatenation; the encoding_rs summary is validated against the real crate on '
+            '54k byte strings at start-up and every sampled path natively.'),
+    'C19': ('4 C19', 'Parser<Screen> on OSC strings with a symbolic code character and unconstrained symbolic payload characters '
+            'for both introducers and all three terminators (and embedded ESC x pairs, empty payload, every cut): z3 '
+            'decides title/icon == payload exactly and that nothing else differs from drawing the trailing character alone.'),
 }
 
 ALL = ['C%02d' % i for i in range(1, 21)]
